@@ -37,7 +37,13 @@ def share_pool(rng, n_roots):
             e = gen.rexpr(rng, rng.randint(2, 6), [2, 3])
         else:
             h = rng.choice(['Add', 'Mul', 'Minus', 'Divide', 'Power', 'Neg', 'Recip', 'Sin', 'NthPow', 'NthRoot', 'Exp', 'Log'])
-            if h in sx.NARY:
+            if h in sx.NARY and rng.random() < 0.3:
+                # the same composite text twice: equal structure, two distinct objects, next to other terms
+                t = gen.rexpr(rng, rng.randint(2, 5), [2, 3], p_const=0.3)
+                kids = [t, t] + [sub(rng.randint(1, 4)) for _ in range(rng.randint(0, 2))]
+                rng.shuffle(kids)
+                e = (h, kids)
+            elif h in sx.NARY:
                 e = (h, [sub(rng.randint(1, 5)) for _ in range(rng.randint(2, 4))])
             elif h in sx.BINARY and rng.random() < 0.25:
                 t = gen.rexpr(rng, rng.randint(2, 5), [2, 3], p_const=0.4)
@@ -80,13 +86,20 @@ def expand(e, flat):
     return sx.with_children(e, [expand(c, flat) for c in sx.children(e)])
 
 
-def make_history(rng, length):
-    pool, flat = share_pool(rng, rng.randint(2, 5))
-    npts = rng.randint(2, 4)
+def make_history(rng, length, focus=False):
+    """focus=True: 2-3 points that are revisited (one inside most domains, one on boundaries), a
+    small pool, and operations that keep returning to the same objects: the shape that exposes a
+    stale memo (A at p; something sharing A's objects at q; A at p again / fail, then retry)"""
+    pool, flat = share_pool(rng, rng.randint(1, 3) if focus else rng.randint(2, 5))
+    npts = rng.randint(2, 3) if focus else rng.randint(2, 4)
     pts = []
-    for _ in range(npts):
+    for k in range(npts):
         r = rng.random()
-        if r < 0.6:
+        if focus and k == 0:
+            p = [(2, rng.choice([1.5, 2, 0.75, 3])), (3, rng.choice([2.5, 1.25, 4, 0.5]))]
+        elif focus and k == 1:
+            p = [(3, rng.choice([0, -1, 2, 1])), (2, rng.choice([0, 1, -2.5, -1]))]
+        elif r < 0.6:
             p = [(2, gen.rnum(rng)), (3, gen.rnum(rng))]
         elif r < 0.8:
             p = [(3, rng.choice([0, -1, 2])), (2, rng.choice([0, 1, -2.5]))]
@@ -97,9 +110,13 @@ def make_history(rng, length):
     model_lines = []      # per op: protocol line whose model answer must equal the op's outcome (or None)
     slots = {}
     nslots = 0
+    last_e = None
     for _ in range(length):
         r = rng.random()
         e = rng.randrange(len(pool))
+        if focus and last_e is not None and rng.random() < 0.5:
+            e = last_e                           # come back to the same object
+        last_e = e
         p = rng.randrange(npts)
         v = rng.choice([2, 3, 3, 2, 5])
         es, ps = sx.to_sx(flat[e]), sx.point_sx(pts[p])
@@ -323,20 +340,25 @@ def _expand_refs(s_, flat):
     return re.sub(r'\(REF (\d+)\)', lambda m: flat[int(m.group(1))], s_)
 
 
-def history_correspondence(ctx, rep, n, keep, maxlen=10, what='history', extra=None):
+def history_correspondence(ctx, rep, n, keep, maxlen=10, what='history', extra=None, disturb=()):
     """histories restricted to the operation kinds in [keep] (plus the constructions they need); every
-    operation's outcome against the pure model; a wrong kind or value is a concrete failing history"""
+    operation's outcome against the pure model; a wrong kind or value is a concrete failing history.
+    Operations of the kinds in [disturb] are executed too (they share objects and caches with the
+    judged ones) but their answers are not judged here.  Half of the histories are 'focused'."""
     rng = ctx.rng
     hs, mls = [], []
     tries = 0
     while len(hs) < n and tries < 20 * n:
         tries += 1
-        h, ml = make_history(rng, rng.randint(4, maxlen))
+        h, ml = make_history(rng, rng.randint(4, maxlen), focus=(tries % 2 == 0))
         ops, m2 = [], []
         for op, l in zip(h['ops'], ml):
             if op[0] in keep or op[0].startswith('mk') or op[0] in ('pexpr', 'dexpr'):   # as_expression switches the object's path
                 ops.append(op)
                 m2.append(l)
+            elif op[0] in disturb:
+                ops.append(op)
+                m2.append(None)
         if not any(l is not None for l in m2):
             continue
         h['ops'] = ops
